@@ -192,7 +192,7 @@ impl Check for ExportRules {
         for _ in 0..n {
             let s = rng.usize_below(n_nodes);
             match rng.weighted(&[36, 10, 10, 4, 4, 3, 3]) {
-                6 => ops.push(jarr!["wlocal", rng.below(n_pfx), rng.below(11)]),
+                6 => ops.push(jarr!["wlocal", rng.below(n_pfx), rng.below(13)]),
                 0 => {
                     let spec = gen_aspec(&mut rng, Some(node_roles[s]), asn_for(node_roles[s], s), confed);
                     ops.push(jarr!["ann", s, rng.below(n_pfx), spec.to_json()]);
@@ -420,6 +420,9 @@ async fn run(case: Json, tol: Tolerate) -> Outcome {
                     8 => pattrs.push(unknown(4, vec![1, 2])),
                     9 => pattrs[1] = unknown(2, vec![2, 5, 0, 0]),
                     10 => pattrs.push(unknown(7, vec![0xfd])),
+                    // an IPv4 route with an IPv6 next hop (no neighbour here negotiated RFC 8950)
+                    11 => pattrs[2] = api::Attribute { attr: Some(api::attribute::Attr::MpReach(api::MpReachNlriAttribute { family: Some(crate::convert::family_to_api(Family::IPV4)), next_hops: vec!["2001:db8::9".into()], nlris: vec![] })) },
+                    12 => pattrs[2] = api::Attribute { attr: Some(api::attribute::Attr::NextHop(api::NextHopAttribute { next_hop: "2001:db8::9".into() })) },
                     _ => {}
                 }
                 let path = api::Path { nlri: Some(crate::convert::nlri_to_api(&v4_prefix(op.at(1).as_u64()))), family: Some(crate::convert::family_to_api(Family::IPV4)), pattrs, ..Default::default() };
